@@ -213,8 +213,17 @@ def _explore_compute_status(ix, kind, symbols, mutate=None):
     def rec(st, ev):
         g = st.ghost
         if ev[0] == "iter":
-            # the loop walks the children themselves or (lazily) their statuses
-            v = ev[3].name if isinstance(ev[3], EnumVal) else st.obj(ev[3]).fields["status"].name
+            # the loop walks the children themselves, (lazily) their statuses, or tuples that carry one of the two (a helper
+            # generator yielding pairs); an element seen twice - in the helper's loop and in the consumer's - changes nothing below
+            el = ev[3]
+            if isinstance(el, tuple):
+                el = next((x for x in el if isinstance(x, EnumVal) or (isinstance(x, Ref) and "status" in st.obj(x).fields)), None)
+            if isinstance(el, EnumVal):
+                v = el.name
+            elif isinstance(el, Ref) and isinstance(st.obj(el).fields.get("status"), EnumVal):
+                v = st.obj(el).fields["status"].name
+            else:
+                raise AnalysisError("compute_status walks something that is neither a child nor a status: %r" % (ev[3],))
             c = cls_of[v]
             g["n"] = 1 if g.get("n", 0) == 0 else GE2
             problem_classes = ("failure", "error", "untested") if kind != "scenario" else ("failure", "error", "untested", "skipped")
@@ -334,75 +343,82 @@ def check_rollup(chk, ix, tier="quick", mutate=None):
 
 
 # ----------------------------------------------------------------------
-# R5 reset chain (structural: effect of each reset() through super calls)
+# R5 reset chain (by evaluation: reset() run on an element whose status fields are dirty and whose children record the call)
 # ----------------------------------------------------------------------
-def _writes_and_calls(ix, func, seen=None):
-    """Attributes of self written (also through super().reset / self.method()) and child recursions."""
-    seen = seen or set()
-    if func.fullname in seen:
-        return set(), set()
-    seen.add(func.fullname)
-    writes, recurse = set(), set()
-    selfname = func.node.args.args[0].arg
-    for n in ast.walk(func.node):
-        if isinstance(n, (ast.Assign, ast.AugAssign)):
-            targets = n.targets if isinstance(n, ast.Assign) else [n.target]
-            for t in targets:
-                if isinstance(t, ast.Attribute) and isinstance(t.value, ast.Name) and t.value.id == selfname:
-                    writes.add(t.attr)
-        elif isinstance(n, ast.Call) and isinstance(n.func, ast.Attribute):
-            f = n.func
-            # super(X, self).reset() / self.clear_status()
-            if isinstance(f.value, ast.Call) and isinstance(f.value.func, ast.Name) and f.value.func.id == "super":
-                chain = func.cls.mro()
-                for c in chain[chain.index(func.cls) + 1:]:
-                    if isinstance(c, ClassInfo) and f.attr in c.methods:
-                        w2, r2 = _writes_and_calls(ix, c.methods[f.attr], seen)
-                        writes |= w2
-                        recurse |= r2
-                        break
-            elif isinstance(f.value, ast.Name) and f.value.id == selfname:
-                m = func.cls.lookup(f.attr)
-                if m is not None and m.kind == "method":
-                    w2, r2 = _writes_and_calls(ix, m, seen)
-                    writes |= w2
-                    recurse |= r2
-        if isinstance(n, ast.For):
-            # for x in self.<attr>: x.reset()
-            it = n.iter
-            src = None
-            if isinstance(it, ast.Attribute) and isinstance(it.value, ast.Name) and it.value.id == selfname:
-                src = it.attr
-            tgt = n.target.id if isinstance(n.target, ast.Name) else None
-            for c in ast.walk(n):
-                if isinstance(c, ast.Call) and isinstance(c.func, ast.Attribute) and c.func.attr == "reset" \
-                        and isinstance(c.func.value, ast.Name) and c.func.value.id == tgt and src:
-                    recurse.add(src)
-    return writes, recurse
-
-
 def check_reset_chain(chk, ix):
     chk.rule("R5", WHAT["R5"])
+    clean = {"_cached_status": "untested", "should_skip": False, "hook_failed": False, "was_dry_run": False, "status": "untested"}
     want = {
-        "behave.model:Step": ({"status", "hook_failed"}, set()),
-        "behave.model:Scenario": ({"_cached_status", "should_skip", "hook_failed", "was_dry_run"}, {"all_steps"}),
-        "behave.model:ScenarioOutline": ({"_cached_status", "should_skip", "hook_failed", "was_dry_run"}, {"all_steps", "_scenarios"}),
-        "behave.model:Feature": ({"_cached_status", "should_skip", "hook_failed"}, {"run_items"}),
-        "behave.model:Rule": ({"_cached_status", "should_skip", "hook_failed"}, {"run_items"}),
+        "behave.model:Step": ({"status", "hook_failed"}, ()),
+        "behave.model:Scenario": ({"_cached_status", "should_skip", "hook_failed", "was_dry_run"}, ("background step", "own step")),
+        "behave.model:ScenarioOutline": ({"_cached_status", "should_skip", "hook_failed", "was_dry_run"}, ("background step", "own step", "generated scenario")),
+        "behave.model:Feature": ({"_cached_status", "should_skip", "hook_failed"}, ("run item 1", "run item 2")),
+        "behave.model:Rule": ({"_cached_status", "should_skip", "hook_failed"}, ("run item 1", "run item 2")),
     }
     for spec, (fields, children) in want.items():
         ci = ix.cls(spec)
         f = ci.lookup("reset")
         if f is None:
             raise AnalysisError("anchor missing: %s.reset" % spec)
+        log = []
+
+        def child_reset(it_, st_, a, k, n, _log=log):
+            _log.append(st_.obj(a[0]).label)
+            return [(st_, "val", None)]
+        stubs = {"ChildStub.reset": child_reset}
+        if ci.name in ("Feature", "Rule"):
+            # the children are real model elements (the container may tell scenarios from rules)
+            stubs.update({"Scenario.reset": child_reset, "ScenarioOutline.reset": child_reset, "Rule.reset": child_reset, "ScenarioContainer.reset": child_reset})
+        it = Interp(ix, stubs=stubs, name=ci.name + ".reset")
+        it.list_cap = 100
+        st = State()
+        st.frames = []
+
+        def kid(label):
+            return st.alloc(HObj("ChildStub", {}, open=True, label=label))
+
+        def lst(*labels):
+            return st.alloc(HObj("list", kind="list", items=[kid(x) for x in labels]))
+        dirty = {"_cached_status": S("failed"), "status": S("failed"), "should_skip": True, "skip_reason": "why", "hook_failed": True,
+                 "was_dry_run": True, "_row": "row", "duration": 3, "run_starttime": 1, "run_endtime": 2,
+                 "exception": "exc", "exc_traceback": "tb", "error_message": "msg",
+                 "captured": st.alloc(HObj("CapturedTok", {}, open=True, label="captured")),
+                 "background": st.alloc(HObj("BackgroundTok", {}, open=True, label="background")), "_use_background": True,
+                 "_background_steps": lst("background step"), "steps": lst("own step"), "_scenarios": lst("generated scenario"),
+                 "run_items": lst("run item 1", "run item 2"), "name": "x", "tags": (), "examples": st.alloc(HObj("list", kind="list", items=[]))}
+        if ci.name in ("Feature", "Rule"):
+            sc = st.alloc(HObj(ix.cls("behave.model:Scenario"), {"name": "s", "tags": ()}, open=True, label="run item 1"))
+            if ci.name == "Feature":
+                inner = st.alloc(HObj(ix.cls("behave.model:Scenario"), {"name": "s2", "tags": ()}, open=True, label="scenario inside the rule"))
+                other = st.alloc(HObj(ix.cls("behave.model:Rule"), {"name": "r", "tags": (), "run_items": st.alloc(HObj("list", kind="list", items=[inner])),
+                                                                     "scenarios": st.alloc(HObj("list", kind="list", items=[inner]))},
+                                      open=True, label="run item 2"))
+                dirty["rules"] = st.alloc(HObj("list", kind="list", items=[other]))
+                dirty["scenarios"] = st.alloc(HObj("list", kind="list", items=[sc]))
+            else:
+                other = st.alloc(HObj(ix.cls("behave.model:ScenarioOutline"), {"name": "o", "tags": ()}, open=True, label="run item 2"))
+                dirty["scenarios"] = st.alloc(HObj("list", kind="list", items=[sc, other]))
+            dirty["run_items"] = st.alloc(HObj("list", kind="list", items=[sc, other]))
+        me = st.alloc(HObj(ci, dirty, label=ci.name))
+        try:
+            outs = it.call_function(st, f, [], {}, None, self_val=me, _body=f.node.body)      # _body: the element's own reset() is not stubbed
+        except AnalysisError as e:
+            raise AnalysisError("%s.reset not evaluable: %s" % (ci.name, e))
+        chk.absorb(it)
         chk.instance("R5")
-        w, r = _writes_and_calls(ix, f)
-        miss_f = sorted(fields - w)
-        miss_c = sorted(children - r)
+        if len(outs) != 1 or outs[0][1] != "val":
+            raise AnalysisError("%s.reset not evaluable: %r" % (ci.name, [(k, v) for _, k, v in outs][:3]))
+        after = outs[0][0].obj(me).fields
+
+        def same(v, w):
+            return (isinstance(v, EnumVal) and v.name == w) if isinstance(w, str) else (v is w)
+        miss_f = sorted(x for x in fields if not same(after.get(x), clean[x]))
+        miss_c = sorted(c for c in children if c not in log)
         if miss_f or miss_c:
             chk.fail(Finding("R5", f.fullname + "[as %s]" % ci.name, "missing fields=%s children=%s" % (miss_f, miss_c),
-                             "%s.reset() does not re-initialise %s / does not reset children %s" % (ci.name, miss_f, miss_c),
+                             "%s.reset() on an element that has run (failed, hook failed, marked to skip): afterwards %s still hold(s) the old value / "
+                             "reset() was not called on %s" % (ci.name, miss_f, miss_c),
                              file=f.file, line=f.lineno, stmt="def reset"))
         else:
-            chk.ok("R5", {"class": ci.name, "resets": sorted(fields), "recurses_into": sorted(children)}, nontrivial_key=spec)
+            chk.ok("R5", {"class": ci.name, "resets": sorted(fields), "resets children": list(children)}, nontrivial_key=spec)
     chk.require_instances("R5", 5)
